@@ -61,6 +61,12 @@ type Recorder struct {
 	reads   int
 }
 
+type tempErr struct{}
+
+func (tempErr) Error() string   { return "verif: injected transient crypto/rand failure" }
+func (tempErr) Temporary() bool { return true }
+func (tempErr) Timeout() bool   { return true }
+
 // ErrInjected is the failure injected at the crypto/rand boundary.
 var ErrInjected = errors.New("verif: injected crypto/rand failure")
 
@@ -80,6 +86,10 @@ func (w *Recorder) Read(p []byte) (int, error) {
 			p[i] = 0
 		}
 		n, err = len(p), nil
+	case w.mode == "tempfail" && k >= w.at && k < w.at+6:
+		// six consecutive transient-looking failures (a consumer that retries a bounded
+		// number of times must still fail closed)
+		n, err = 0, tempErr{}
 	case w.mode == "fail" && k == w.at:
 		n, err = 0, ErrInjected
 	case w.mode == "failpartial" && k == w.at && len(p) > 3:
